@@ -409,7 +409,7 @@ func c02Matchers() []c02Matcher {
 	var out []c02Matcher
 	for _, l := range []string{"container", "container_name", "container_image", "container_state", "k", "com_x_y", "nolabel"} {
 		for _, op := range []string{"=", "!=", "=~", "!~"} {
-			for _, v := range []string{"a", "b", "ab", "", "a.*", ".*", ".+", "a|b", "v", "i1", "running", "^a|b$", "^(a)$"} {
+			for _, v := range []string{"a", "b", "ab", "", "a.*", ".*", ".+", "a|b", "v", "i1", "running", "^a|b$", "^(a)$", "(?i)A", "(?i)RUNNING|I1|V"} {
 				out = append(out, c02Matcher{Label: l, Op: op, Value: v})
 			}
 		}
@@ -519,7 +519,7 @@ func c02Run(r *vkit.Run) {
 		r.State(vkit.J(inv))
 	}
 	one(c02Input{Ctrs: invs[0], Matchers: nil, Shape: "log", StartNS: 0, EndNS: 3 * sec})
-	r.Note("bounds", fmt.Sprintf("%d container variants (3 names x 2 images x 2 states x 6 Docker-label sets) in %d inventories; %d single matchers (7 labels x 4 ops x 13 values incl. explicitly anchored alternations) x 10 time ranges x 5 query shapes; matcher pairs on a 1/%d lattice; 15 (earlier selector, selector) pairs per inventory on a Querier that answered a query over a different inventory before", len(vars), len(invs), len(ms), pairStep))
+	r.Note("bounds", fmt.Sprintf("%d container variants (3 names x 2 images x 2 states x 6 Docker-label sets) in %d inventories; %d single matchers (7 labels x 4 ops x 15 values incl. explicitly anchored alternations and case-insensitive literals) x 10 time ranges x 5 query shapes; matcher pairs on a 1/%d lattice; 15 (earlier selector, selector) pairs per inventory on a Querier that answered a query over a different inventory before", len(vars), len(invs), len(ms), pairStep))
 }
 
 func c02Replay(r *vkit.Run, v vkit.Violation) *vkit.Violation {
